@@ -403,6 +403,38 @@ plan('C11', jobs=_c11,
      design_ref='DESIGN.md section 3, C11')
 
 
+def _c03(tier):
+    jobs = [
+        J('C03', 'dbg/framed', 'dbg', 'eng_full', '--fam track,copy,large,zst', 6, q(tier, 60, 3000)),
+        J('C03', 'rel/framed', 'rel', 'eng_full', '--fam track,copy,large,zst', 6, q(tier, 200, 12000)),
+        J('C03', 'dbg/heap-elems', 'dbg', 'eng_full', '--fam raw,heap', 2, q(tier, 60, 3000)),
+        J('C03', 'rel/heap-elems', 'rel', 'eng_full', '--fam raw,heap', 2, q(tier, 200, 12000)),
+        J('C03', 'miri/track', 'miri', 'eng_full', '--fam track,zst,raw', 8, q(tier, 1, 6), light=True, timeout=q(tier, 1500, 7200)),
+        J('C03', 'mirirel/track', 'mirirel', 'eng_full', '--fam track,zst,raw', 8, q(tier, 1, 6), light=True, timeout=q(tier, 1500, 7200)),
+    ]
+    if tier == 'thorough':
+        jobs += [
+            J('C03', 'asan/exact', 'asan', 'eng_full', '--fam raw,heap,track,copy --exact', 8, 3000),
+            J('C03', 'vg/exact', 'vg', 'eng_full', '--fam raw,heap,copy --exact', 8, 100, light=True, timeout=7200),
+            J('C03', 'rel-std/framed', 'rel-std', 'eng_full', '--fam track,copy,large,zst', 4, 3000),
+        ]
+    return jobs
+
+
+plan('C03', jobs=_c03,
+     rule='A case is one call of one safe insertion entry point on one FULL container (or one overflowing collect). Full states are reached through random fill/remove/refill histories, so full maps occur in many slot layouts; per state every entry point (insert, insert_key_value, checked_insert, entry.or_insert / or_insert_with / or_insert_with_key / or_default / and_modify.or_insert, VacantEntry::insert | OccupiedEntry::insert, Set::insert, Set::replace, Set::extend with one and with two items) is called once with an absent key and once with a present key; Map/Set collect are fed more than N distinct keys with repeats sprinkled in; with_capacity(c) for c = N and c != N. Capacities N in {0,1,2,3,4,8,16}, element families track (ledger), copy, raw (String/Box), heap (faultable heap-owning), large (128/512-byte), zst (zero-sized key and value). Distinct by (family, N, slot order, seed history); every case is non-trivial.',
+     required=['insert:absent:N=0', 'insert:absent:N=4', 'insert:absent:N=8+', 'insert:present:N=4', 'insert_key_value:absent:N=1', 'checked_insert:absent:N=2', 'checked_insert:present:N=3',
+               'entry.or_insert:absent', 'entry.or_insert_with:absent', 'entry.or_insert_with_key:absent', 'entry.or_default:absent', 'VacantEntry::insert|OccupiedEntry::insert:absent',
+               'VacantEntry::insert|OccupiedEntry::insert:present', 'Set::insert:absent:N=0', 'Set::insert:absent:N=4', 'Set::replace:absent', 'Set::replace:present', 'Set::extend(one):absent',
+               'Set::extend(two):absent', 'Map::from_iter(overflow):N=0', 'Map::from_iter(overflow):N=3', 'Set::from_iter(overflow):N=1', 'zst:absent:N=0', 'zst:absent:N=16', 'zst:present', 'with_capacity'],
+     assumptions=NATIVE_ASSUME + SAN_ASSUME + ['canary words (128 bytes before and after the container, inside one poisoned heap frame) reveal writes next to the container; writes further away are the sanitizers\' business'],
+     title='full container rejects a new key',
+     technique='runtime monitoring: must-panic oracle per entry point in debug, release and Miri with and without debug assertions; canary frame around the container; identity fingerprint before/after; ledger for the rejected arguments; exact-size heap placement under AddressSanitizer and valgrind',
+     level_text='Exploration: every safe insertion entry point is driven against full containers reached by random histories, for seven capacities and six element shapes, in the dev profile, the release profile (debug assertions off: only the code\'s own bounds check stands between the call and a slot overflow) and under Miri in both profiles; the call must panic (checked_insert: return None), canaries must be intact, the container must hold the very same objects, the rejected key and value must be destroyed exactly once, a present key must still be replaceable, and the container must stay usable. Thorough adds ASan and valgrind with the container alone in an exact-size heap block, and the std feature.',
+     level_note='Red-zone tools cannot see intra-object overflow; the canary frame and Miri\'s bounds checks are the deciding monitors there. Finite sample of full states.',
+     design_ref='DESIGN.md section 3, C03')
+
+
 def claimed():
     return sorted(PLANS)
 
